@@ -327,13 +327,17 @@ class World(EventDispatcher):
                 self.remove_handler(component)
 
         del self._entities[entity]
+        self._dead_entities.discard(entity)
 
     def _clear_dead_entities(self):
-        """Finalize deletion of any entities marked as dead."""
-        for entity in self._dead_entities:
-            self._delete_entity_now(entity)
+        """Finalize deletion of any entities marked as dead.
 
-        self._dead_entities.clear()
+        Marks are consumed one at a time, before the actual deletion:
+        ``on_remove`` callbacks are allowed to raise or to mark other
+        entities without compromising the following frames.
+        """
+        while self._dead_entities:
+            self._delete_entity_now(self._dead_entities.pop())
 
     def remove_component(self, entity: Hashable, component_type: type[C]):
         """Remove a component from an entity, if the entity owns one.
@@ -362,9 +366,11 @@ class World(EventDispatcher):
                     removed = self._entities[entity][subtype]
                     del self._entities[entity][subtype]
 
-                # Free dict entry for an entity if empty
+                # Free dict entry for an entity if empty, a pending
+                # deletion has nothing left to delete
                 if not self._entities[entity]:
                     del self._entities[entity]
+                    self._dead_entities.discard(entity)
 
                 if removed is not None:
                     # No need to check if it is an handler, just check
